@@ -301,6 +301,7 @@ func runCase(env *vlib.Env, idx int, rep *vlib.Reporter) {
 		}
 		rec := httptest.NewRecorder()
 		router.ServeHTTP(rec, req)
+		vlib.Tick()
 		return rec.Code, rec.Body.String(), true
 	}
 	cfgName := map[bool]string{true: "write-enabled", false: "read-only"}[write]
